@@ -89,7 +89,11 @@ def run_family(run, st, quick, compile_batch, pool):
     """returns (records of the slice, coverage report, javac futures to be finished with `finish_javac`)"""
     ms = ir_family.members("java")
     t0 = time.time()
-    idx = ir_family.quick_slice(ms, run.seed, QUICK_N) if quick else list(range(len(ms)))
+    # thorough: 5000 expressible members (every probe / slot / context / program-level shape + a seeded sample; translation
+    # and javac of the whole family, 13 400 expressible members, take 15 minutes on the shared machine: C02_FAMILY_THOROUGH=all)
+    th = os.environ.get("C02_FAMILY_THOROUGH", "5000")
+    idx = ir_family.quick_slice(ms, run.seed, QUICK_N) if quick else (
+        list(range(len(ms))) if th == "all" else ir_family.quick_slice(ms, run.seed, int(th)))
     recs, cov = translate_members(idx, "f", 1 if quick else min(12, max(1, (os.cpu_count() or 2) - 2)))
     built = [r for r in recs if "skip" not in r]
     run.log("family: %d of %d members in the slice, %d expressible, translated in %.0fs" % (len(idx), len(ms), len(built), time.time() - t0))
